@@ -151,6 +151,13 @@ Theorem client_faithful_pinpath_recover_refuted :
 Proof. exact pinpath_recover_refuted_l. Qed.
 Print Assumptions client_faithful_pinpath_recover_refuted.
 
+(* the guard excludes exactly the shape the correspondence check recognises as this known finding (tag 1), and the
+   witness above has that shape *)
+Theorem client_guard_excludes_finding :
+  (forall c, client_guard c -> is_recover_shadow c = false) /\ is_recover_shadow recover_call = true.
+Proof. exact (conj guard_excludes_shadow recover_shadow_witness). Qed.
+Print Assumptions client_guard_excludes_finding.
+
 (* composed with C08 query_roundtrip: Pin / PinPath carry the options given (minus metadata entries with the empty key),
    for every oracle of the trusted parsers and every clock; guard wf_q (parsable texts, no ',' in peer strings) *)
 Theorem client_options_faithful render orc now o c e :
